@@ -16,6 +16,7 @@ import asyncio
 import random
 import sys
 import threading
+import time
 import warnings
 
 from . import lib
@@ -29,14 +30,14 @@ RULE = ("template sets: (a) random compositions of state-carrying snippets (name
         "compared after every render. A case = (template, mode, phase); distinct non-trivial = the template's reference "
         "output is non-empty and the render touched at least one mutable input (list / dict valued name occurs in it)")
 
-MODES = ["sync", "sandbox", "async"]
+MODES = ["sync", "sandbox", "async", "sync-auto"]
 
 
 def make_env(jinja2, mode, templates, env_globals):
     from jinja2.sandbox import SandboxedEnvironment
     loader = jinja2.FunctionLoader(lambda n: (templates[n], n, lambda: True) if n in templates else None)
     cls = SandboxedEnvironment if mode == "sandbox" else jinja2.Environment
-    env = cls(loader=loader, enable_async=(mode == "async"))
+    env = cls(loader=loader, enable_async=(mode == "async"), autoescape=(mode == "sync-auto"))
     env.globals.update(env_globals)
     return env
 
@@ -99,6 +100,8 @@ def run(ctx):
     krt_new_context(ctx, jinja2)
     krt_module_cache(ctx, jinja2)
 
+    thread_gate_probes(ctx, jinja2)
+
     # ---------------- O
     sys_switch = sys.getswitchinterval()
     try:
@@ -111,6 +114,7 @@ def run(ctx):
         # opposite order: state that leaks between environments (module-level / class-level) shows up here
         for gi in reversed(range(len(groups))):
             templates, names, tg_data = groups[gi]
+            USE_TPL_GLOBALS[0] = (gi % 2 == 0)
             for mode in MODES:
                 for n in reversed(names):
                     data, eg, tg = inputs_for(tg_data)
@@ -121,7 +125,7 @@ def run(ctx):
                                     "tgen_data": repr(tg_data) if tg_data and n.startswith("g_") else None,
                                     "first": refs[(gi, mode)][n][:300], "late": out[:300]},
                                    "an isolated render on a fresh environment differs between the start and the end of the run "
-                                   "(state leaks between environments)", f"late isolated render differs: {mode}")
+                                   "(state leaks between environments)", FC.special_signature(templates[n]) or f"late isolated render differs: {mode}")
                     else:
                         ctx.validated()
     finally:
@@ -135,6 +139,7 @@ from harness import c29, frames_common as FC
 import jinja2
 job = json.loads(sys.stdin.read())
 tg_data = eval(job["tg_data"]) if job["tg_data"] else None
+c29.USE_TPL_GLOBALS[0] = job.get("use_tpl", True)
 data, eg, tg = c29.inputs_for(tg_data)
 print(json.dumps(c29.render(c29.make_env(jinja2, job["mode"], job["templates"], eg), job["name"], data, tg)))
 """
@@ -152,7 +157,7 @@ def fresh_process_refs(ctx, groups, refs):
     ctx.rng.shuffle(jobs)
     for gi, mode, n in jobs[: ctx.size(14, 80)]:
         templates, names, tg_data = groups[gi]
-        job = {"templates": templates, "mode": mode, "name": n, "tg_data": repr(tg_data) if tg_data else None}
+        job = {"templates": templates, "mode": mode, "name": n, "tg_data": repr(tg_data) if tg_data else None, "use_tpl": gi % 2 == 0}
         rc, out, err = lib.impl_python(FRESH_CODE % lib.ROOT, inp=json.dumps(job), timeout=60)
         ctx.case(key=(templates[n], mode, "fresh-process"))
         try:
@@ -164,7 +169,85 @@ def fresh_process_refs(ctx, groups, refs):
                         "tgen_data": repr(tg_data) if tg_data and n.startswith("g_") else None,
                         "in_process": refs[(gi, mode)][n][:300], "fresh_process": got[:300]},
                        "the isolated render in this process differs from the same render in a brand-new interpreter "
-                       "(state leaks between renders at module / class level)", f"fresh-process render differs: {mode}")
+                       "(state leaks between renders at module / class level)", FC.special_signature(templates[n]) or f"fresh-process render differs: {mode}")
+        else:
+            ctx.validated()
+
+
+def thread_gate_probes(ctx, jinja2):
+    """deterministic overlap of two renders in two threads: render A is parked by a data / global callable at a chosen
+    point while render B runs to completion (or parks too), then they are released in a fixed order; B's output must
+    be its isolated output.  The points chosen are inside {% autoescape %} blocks, where the eval context is modified."""
+    scenarios = [
+        # (name, autoescape of the environment, templates, A, B, release order, signature if it fails)
+        ("autoescape block in a template vs an eval-context filter in another",
+         False, {}, "{% autoescape true %}{{ park('a') }}{{ html }}{% endautoescape %}{{ html }}",
+         "{{ [html, '<m>'|safe]|join('-') }}{{ html }}", None),
+        ("autoescape block vs macro call and urlize",
+         True, {}, "{% autoescape false %}{{ park('a') }}{{ html }}{% endautoescape %}",
+         "{% macro m(x) %}{{ x }}{% endmacro %}{{ m(html) }}{{ html|urlize }}{{ [html, '<m>'|safe]|join }}", None),
+        ("two renders inside the autoescape block of a cached module's macro",
+         True, {"lib4.html": "{% macro f4(x) %}{% autoescape false %}{{ gpark() }}{{ [x, '<m>'|safe]|join('-') }}{% endautoescape %}{% endmacro %}"},
+         "{% import 'lib4.html' as L %}{{ L.f4(html) }}", "{% import 'lib4.html' as L %}{{ L.f4(html) }}{{ [html, '<m>'|safe]|join }}",
+         FC.SIG_MODULE_EVALCTX),
+    ]
+    for name, auto, extra, src_a, src_b, sig in scenarios:
+        def build():
+            gates = {"A": threading.Event(), "B": threading.Event()}
+            parked = {"A": threading.Event(), "B": threading.Event()}
+            free = [False]
+
+            def park(*_a):
+                who = threading.current_thread().name
+                if free[0] or who not in gates:
+                    return ""
+                parked[who].set()
+                gates[who].wait(5)
+                return ""
+
+            templates = dict(extra, a=src_a, b=src_b)
+            env = jinja2.Environment(loader=jinja2.DictLoader(templates), autoescape=auto)
+            env.globals["gpark"] = park
+            return env, gates, parked, free, park
+
+        def one(env, tname, park, tid):
+            try:
+                return "ok:" + env.get_template(tname).render(html="<i>" + tid, park=park)
+            except Exception as e:  # noqa
+                return "exc:" + type(e).__name__
+
+        env, gates, parked, free, park = build()
+        free[0] = True
+        iso_a, iso_b = one(env, "a", park, "A"), one(build()[0], "b", park, "B")
+        env, gates, parked, free, park = build()
+        out = {}
+        ta = threading.Thread(target=lambda: out.__setitem__("A", one(env, "a", park, "A")), name="A")
+        tb = threading.Thread(target=lambda: out.__setitem__("B", one(env, "b", park, "B")), name="B")
+        ta.start()
+        parked["A"].wait(5)
+        tb.start()
+        # B either finishes (it never parks) or parks inside the shared macro
+        for _ in range(200):
+            if parked["B"].is_set() or not tb.is_alive():
+                break
+            time.sleep(0.005)
+        gates["A"].set()
+        ta.join(5)
+        gates["B"].set()
+        tb.join(5)
+        after = one(env, "b", lambda *_: "", "B")
+        free[0] = True
+        case = {"krt": "thread gate", "scenario": name, "A": src_a, "B": src_b, "templates": extra, "autoescape": auto}
+        ctx.case(key=("thread-gate", name), sample=dict(case, outputs=out))
+        ctx.count("thread_gate")
+        if out.get("B") != iso_b or out.get("A") != iso_a:
+            ctx.reject(dict(case, isolated={"A": iso_a, "B": iso_b}, overlapped=out),
+                       "a render that overlaps another render parked inside an {% autoescape %} block differs from its isolated render",
+                       sig or "thread overlap inside autoescape block: " + name)
+        elif after != iso_b:
+            ctx.reject(dict(case, isolated=iso_b, later=after),
+                       "after two overlapping renders a later render on the same environment differs from the isolated render",
+                       sig or "thread overlap leaves state: " + name)
         else:
             ctx.validated()
 
@@ -208,8 +291,18 @@ def krt_module_cache(ctx, jinja2):
         ctx.validated()
 
 
-def inputs_for(tg_data):
+# template-level globals are handed to get_template(globals=...) for every second group only: an importer with extra
+# template globals never uses the module cache (Template._get_default_module renders a module per import then)
+USE_TPL_GLOBALS = [True]
+
+
+def inputs_for(tg_data, variant=0):
     data, eg, tg = FC.make_inputs()
+    if not USE_TPL_GLOBALS[0]:
+        eg = dict(eg, **tg)
+        tg = None
+    if variant:
+        data["tgv"] = "D%d" % variant          # render data shadows the template-level global of the same name
     if tg_data:
         for k, v in tg_data.items():
             data.setdefault(k, v)
@@ -217,20 +310,25 @@ def inputs_for(tg_data):
 
 
 def oracle_group(ctx, jinja2, templates, names, tg_data, mode, gi):
+    USE_TPL_GLOBALS[0] = (gi % 2 == 0)
     # reference: each template alone on a fresh environment with fresh inputs
     ref = {}
     for n in names:
         data, eg, tg = inputs_for(tg_data)
         env = make_env(jinja2, mode, templates, eg)
         ref[n] = render(env, n, data, tg)
+        data, eg, tg = inputs_for(tg_data, 1)
+        ref[(n, 1)] = render(make_env(jinja2, mode, templates, eg), n, data, tg)
     # shared environment, shared inputs
     data, eg, tg = inputs_for(tg_data)
+    data_v1 = dict(data, tgv="D1")            # same objects, one more name
     env = make_env(jinja2, mode, templates, eg)
-    snap = (FC.snapshot(data), FC.snapshot(env.globals.get("gl")), FC.snapshot(tg))
+    tg_obj = tg if tg is not None else {"tg": env.globals.get("tg"), "tgv": env.globals.get("tgv")}
+    snap = (FC.snapshot(data), FC.snapshot(env.globals.get("gl")), FC.snapshot(tg_obj))
 
     def check_inputs(case, phase):
         for label, (was, was_repr), now in (("data", snap[0], data), ("env.globals", snap[1], env.globals.get("gl")),
-                                            ("template.globals", snap[2], tg)):
+                                            ("template.globals", snap[2], tg_obj)):
             if repr(now) != was_repr:
                 where = FC.diff_path(was, now, label) or label
                 ctx.reject(dict(case, phase=phase, before=was_repr[:300], after=repr(now)[:300]),
@@ -238,21 +336,24 @@ def oracle_group(ctx, jinja2, templates, names, tg_data, mode, gi):
                 return False
         return True
 
-    order = [n for n in names for _ in range(3)]
+    order = [(n, v) for n in names for v in (0, 0, 1)]
     ctx.rng.shuffle(order)
-    for n in order:
-        case = {"templates": templates, "template": n, "mode": mode, "tgen_data": repr(tg_data) if tg_data and n.startswith("g_") else None}
-        out = render(env, n, data, tg)
+    for n, variant in order:
+        case = {"templates": templates, "template": n, "mode": mode, "variant": variant, "use_tpl": USE_TPL_GLOBALS[0],
+                "tgen_data": repr(tg_data) if tg_data and n.startswith("g_") else None}
+        out = render(env, n, data_v1 if variant else data, tg)
         src = templates[n]
+        refn = ref[(n, 1)] if variant else ref[n]
         nontriv = ref[n].startswith("ok:") and len(ref[n]) > 3 and any(w in src for w in ("acc", "lists", "nums", "words", "nested",
-                                                                                           "recs", " d", "gl.", "tg.", "lib.html"))
+                                                                                           "recs", " d", "gl.", "tg.", "lib.html", "lib2.html", "lib3.html", "namespace("))
         ctx.case(sample={"template": src, "mode": mode, "output": out[:80]} if nontriv and ctx.evaluations % 301 == 0 else None,
                  key=(src, mode, "seq") if nontriv else None)
         ctx.count("seq_" + out[:3])
         good = check_inputs(case, "sequential")
-        if out != ref[n]:
-            ctx.reject(dict(case, phase="sequential", isolated=ref[n][:300], got=out[:300]),
-                       "a repeated / reordered render differs from the isolated render", f"repeat differs: {mode}")
+        if out != refn:
+            ctx.reject(dict(case, phase="sequential", isolated=refn[:300], got=out[:300]),
+                       "a repeated / reordered render differs from the isolated render",
+                       FC.special_signature(src) or f"repeat differs: {mode}")
             good = False
         if good:
             ctx.validated()
@@ -286,7 +387,7 @@ def oracle_group(ctx, jinja2, templates, names, tg_data, mode, gi):
                 if out != ref[plan[i]]:
                     ctx.reject(dict(case, phase="threads", isolated=ref[plan[i]][:300], got=out[:300]),
                                "a render in one of several concurrent threads differs from the isolated render",
-                               f"thread render differs: {mode}")
+                               FC.special_signature(src) or f"thread render differs: {mode}")
                 else:
                     ctx.validated()
         check_inputs({"templates": templates, "template": ",".join(sorted(set(plan))), "mode": mode}, "threads")
@@ -299,11 +400,15 @@ def replay(ctx, data):
     if data.get("kind") != "failing-input" or case is None:
         print("replay: names a broken theorem / obligation / correspondence:", data.get("broken"))
         return run(ctx)
+    if case.get("krt") == "thread gate":
+        thread_gate_probes(ctx, jinja2)
+        return
     if "krt" in case:
         krt_new_context(ctx, jinja2)
         krt_module_cache(ctx, jinja2)
         return
     templates, mode = case["templates"], case["mode"]
+    USE_TPL_GLOBALS[0] = case.get("use_tpl", True)
     names = case["template"].split(",")
     if case.get("phase") == "fresh process":
         import json
